@@ -501,7 +501,7 @@ func parent(h *Harness, tier string, seed int64) int {
 	exhaustive := len(m.CapsHit) == 0 && len(m.Incidents) == 0
 	cov := map[string]any{
 		"evaluations":                      m.Executions,
-		"distinct_nontrivial":              int64(len(m.outSet)),
+		"distinct_nontrivial":              nontrivial(m),
 		"rule":                             h.Rule,
 		"samples":                          m.Samples,
 		"states":                           maxi(m.States, int64(len(m.outSet))),
